@@ -261,6 +261,75 @@ def run_shard(args):
 
 
 # ------------------------------------------------------------------------------------------
+# several subset() calls on ONE decoded message object: every result must be what its own call alone gives, however many
+# other selections were taken before or after it and whenever it is encoded
+SEQ_MENU = [[0], [1], [2], [0, 1], [1, 2], [2, 0], [0, 1, 2], [1, 1], [3]]
+
+
+def _encode_or_exc(data):
+    with contextlib.redirect_stderr(io.StringIO()):
+        try:
+            return CC.encoder().process(data, wire_template_data=False).serialized_bytes
+        except Exception as e:
+            return 'EXC ' + type(e).__name__
+
+
+def run_sequences(args):
+    items, comp, maxlen = args
+    p = Partial()
+    for name, descs in items:
+        try:
+            b, spec, subs, bufs = build_source(descs, 3, comp, 0)
+        except (codec.RefError, ValueError):
+            p.n['skipped'] += 1
+            continue
+        ref = []
+        for c in SEQ_MENU:
+            m = CC.decoder().process(b, wire_template_data=False)
+            try:
+                ref.append(_encode_or_exc(m.subset(c)))
+            except Exception as e:
+                ref.append('REFUSED')
+        p.n['nodes'] += 1
+        for L in range(2, maxlen + 1):
+            for seq in itertools.product(range(len(SEQ_MENU)), repeat=L):
+                for order in ('forward', 'reverse'):
+                    m = CC.decoder().process(b, wire_template_data=False)
+                    before = snapshot(m)
+                    results = []
+                    for k in seq:
+                        try:
+                            results.append(m.subset(SEQ_MENU[k]))
+                        except Exception:
+                            results.append(None)
+                    idx = list(range(L)) if order == 'forward' else list(reversed(range(L)))
+                    p.n['exec'] += 1
+                    p.n['edges'] += L
+                    p.outcome((L, order, comp, sum(r is None for r in results)))
+                    for j in idx:
+                        got = 'REFUSED' if results[j] is None else _encode_or_exc(results[j])
+                        if got != ref[seq[j]]:
+                            p.violation('call-sequence|%s|%s' % (order, 'comp' if comp else 'uncomp'),
+                                        {'descs': descs, 'compressed': comp, 'sequence': [SEQ_MENU[k] for k in seq], 'order': order,
+                                         'name': name},
+                                        'subset(%r), taken as call %d of the calls %r on one message object and encoded %s, gives '
+                                        '%s; that call alone gives %s' % (SEQ_MENU[seq[j]], j, [SEQ_MENU[k] for k in seq],
+                                                                         'after all calls' if order == 'forward' else 'in reverse order',
+                                                                         got if isinstance(got, str) else got.hex(),
+                                                                         ref[seq[j]] if isinstance(ref[seq[j]], str) else ref[seq[j]].hex()))
+                            break
+                    if snapshot(m) != before:
+                        p.violation('call-sequence|source-modified', {'descs': descs, 'compressed': comp,
+                                                                      'sequence': [SEQ_MENU[k] for k in seq], 'order': order, 'name': name},
+                                    'the source message changed')
+    return p
+
+
+SEQ_TEMPLATES = [('plain', [1001, 5002, 10]), ('fixed-repl', [102002, 1001, 2001, 5002]), ('delayed', [1001, 101000, 31001, 5002]),
+                 ('operators', [201130, 5002, 201000, 204002, 31021, 1001, 204000]),
+                 ('bitmap', [1001, 5002, 222000, 236000, 101002, 31031, 33007, 33007])]
+
+
 def _same(new, old):
     """foreign compressed messages may carry character increments shorter than the field: the decoded value is then
     shorter than the field and is blank-padded to the field width when written again (C03: strings read back padded)"""
@@ -384,6 +453,10 @@ def replay(part, case):
         p = run_cli_part(None)
         return [{'sig': v['sig'], 'detail': v['detail']} for v in p.viol
                 if v['case']['indices'] == case['indices'] and v['case']['descs'] == case['descs']]
+    if part.startswith('call-sequences'):
+        p = run_sequences(([(case['name'], case['descs'])], case['compressed'], len(case['sequence'])))
+        return [{'sig': v['sig'], 'detail': v['detail']} for v in p.viol
+                if v['case']['sequence'] == case['sequence'] and v['case']['order'] == case['order']]
     it = case['item']
     queues = [[tuple(x) for x in q] for q in it[2]] if it[2] is not None else None
     body = body_for((it[0], it[1], queues, it[3]), case['env'])
@@ -428,6 +501,12 @@ def main(tier, seed):
         rep.add_part('gen-n%d-%s%s' % (env['nsub'], 'c' if env['compressed'] else 'u', '-len4' if env.get('maxlen') else ''), p,
                      bounds=dict(env, templates=len(its), collections=len(collections_for(env['nsub'], env.get('maxlen', 3))),
                                  patterns=NPAT))
+    for comp in (False, True):
+        L = 2 if tier == 'quick' else 3
+        p = merge_all(run_shards(run_sequences, [([t], comp, L) for t in SEQ_TEMPLATES]))
+        rep.add_part('call-sequences-%s' % ('c' if comp else 'u'), p,
+                     bounds={'templates': len(SEQ_TEMPLATES), 'subsets': 3, 'collections': SEQ_MENU, 'max_calls': L,
+                             'encode_orders': ['forward (after all calls)', 'reverse'], 'compressed': comp})
     from mc.gen import corpus
     msgs = list(corpus.messages(max_bytes=6000 if tier == 'quick' else 60000))
     p = merge_all(run_shards(run_corpus, split(msgs, 64)))
